@@ -33,7 +33,7 @@ def run(ctx):
     ctx.rule = ('random (type, value) from the universe plus targeted cases (strings over 1000 octets, SET OF members sharing prefixes, '
                 'DEFAULT equal to default, explicitly tagged primitives) x (encoder, decoder) in {(DER,DER),(DER,CER),(DER,BER),(CER,CER),(CER,BER)}; '
                 'agreement of the three decoders on DER, CER and BER-only (indefinite, chunked) encodings of the same value')
-    cases = codec.gen_cases(ctx, ctx.n(100, 2000), depth=3) + targeted(ctx)
+    cases = codec.gen_cases(ctx, ctx.n(100, 2000), depth=3, any_der=True) + targeted(ctx)
     exprs, meta = [], []
     search_only = getattr(ctx, 'search_only', False)
     for c in cases:
